@@ -145,7 +145,9 @@ func vpH_C06_T_restart_stuck() {
 	s.kv.faultForce = true
 	s.kv.hangLat = 9 * time.Second // this request is answered (with an error) only after 9s
 	time.Sleep(100 * time.Millisecond)
+	tStop := vpNow()
 	_ = s.e.Stop()
+	vpAssert("C09.returns-in-bound", vpNow()-tStop <= int64(5*time.Second)) // Stop's own bounded wait, whatever the store does
 	_ = s.e.Start(vpRootCtx())
 	time.Sleep(6 * time.Second) // the stuck call of the previous run has returned by now
 	vpQuiesce()
@@ -193,4 +195,54 @@ func vpH_C06_T_vacancy_after_reconnect() {
 	vpAssert("C06.filled-in-bound", e.IsLeader() && cb.promotes >= 1)
 	vpAssert("C06.filled-in-bound:time", vpImplies(cb.promotes >= 1, cb.promoteAt <= tv+int64(600*time.Millisecond)))
 	_ = e.Stop()
+}
+
+// vpH_C06_T_vacancy_slow_store: a short valid configuration (H = 100 ms, TTL = 300 ms) against a healthy store
+// that needs 80 ms per operation; the owner's record vanishes without notification: leader within the periodic
+// bound plus the latencies of the operations involved.
+func vpH_C06_T_vacancy_slow_store() {
+	H := 100 * time.Millisecond
+	vpSetOpt("rand-fixed", 1)
+	s := vpFollowingInstance(H, nil)
+	s.kv.lat = 80 * time.Millisecond
+	s.kv.latMin = s.kv.lat
+	s.kv.opLeft = 60
+	time.Sleep(1200 * time.Millisecond)
+	vpQuiesce()
+	s.st.noEvents = true
+	s.st.write("env:other", "delete", nil, true, 0)
+	tv := vpNow()
+	time.Sleep(1500 * time.Millisecond)
+	vpQuiesce()
+	vpCover("C06.vacancy-slow-store")
+	vpAssert("C06.filled-in-bound", s.e.IsLeader() && s.cb.promotes >= 1)
+	vpAssert("C06.filled-in-bound:time", vpImplies(s.cb.promotes >= 1, s.cb.promoteAt <= tv+int64(600*time.Millisecond+4*80*time.Millisecond)))
+	_ = s.e.Stop()
+}
+
+// vpH_C06_T_vacancy_after_outage: the record vanishes without notification while the store rejects every write
+// for 1.5 s (transient errors: the follower's rounds fail again and again); once the store works again the
+// vacancy is filled within the usual bound — earlier failures leave nothing behind that keeps the candidate out.
+func vpH_C06_T_vacancy_after_outage() {
+	H := time.Second
+	vpSetOpt("rand-fixed", 1)
+	s := vpFollowingInstance(H, nil)
+	s.kv.opLeft = 80
+	time.Sleep(700 * time.Millisecond)
+	vpQuiesce()
+	s.st.noEvents = true
+	s.st.write("env:other", "delete", nil, true, 0)
+	s.kv.faults = []int{vpFaultErr}
+	s.kv.faultOps = "create"
+	s.kv.faultLeft = 1000
+	s.kv.faultForce = true
+	time.Sleep(1500 * time.Millisecond)
+	s.kv.faultLeft = 0
+	t2 := vpNow()
+	time.Sleep(1500 * time.Millisecond)
+	vpQuiesce()
+	vpCover("C06.vacancy-after-outage")
+	vpAssert("C06.filled-in-bound", s.e.IsLeader() && s.cb.promotes >= 1)
+	vpAssert("C06.filled-in-bound:time", vpImplies(s.cb.promotes >= 1, s.cb.promoteAt <= t2+int64(700*time.Millisecond)))
+	_ = s.e.Stop()
 }
